@@ -388,7 +388,7 @@ def check_step(drive, rec, i, out, info, mem, state):
                 info.label('event consumed by empty step')
         else:
             if ev is not None:
-                out.append(V(['C01', 'C05'], 'event-consumed-unexpectedly', i,
+                out.append(V(['C01', 'C05', 'C03'], 'event-consumed-unexpectedly', i,
                              consumed=ev, eventless=sel['eventless']))
                 return 'abort'
             if not fired:
@@ -396,7 +396,7 @@ def check_step(drive, rec, i, out, info, mem, state):
                 return 'abort'
         evs = [m['event'] for m in res['micro'] if m['event'] is not None]
         if any(e != res['event'] for e in evs):
-            out.append(V('C05', 'several-events-in-step', i, events=evs))
+            out.append(V(['C05', 'C03'], 'several-events-in-step', i, events=evs))
         if res['time'] != T:
             out.append(V('C03', 'step-time', i, time=res['time'], clock=T))
     # guard visibility
